@@ -16,6 +16,8 @@ package tests
 //   <wid> <mode> <log> <phase1> <phase2>
 //     mode   S            every single crash point k in 0..N1 of phase1
 //            D<stride>    every pair (k1,k2): k1 in 0..N1, k2 in 0..N2(k1), keeping pairs with (k1+k2)%stride==0
+//            F            every single crash point from the last operation of the first call on (the first call is the
+//                         first Open, whose crash points do not depend on the log)
 //            T<m>:<r>     sampled single crash points: the point after the last operation, the first and last operation
 //                         index of every call (crash just before / just after a call returned) and every k with k%m==r
 //            s:<k>        one single crash point;  d:<k1>:<k2> one pair;  n  no crash (run, close, reopen)
@@ -43,6 +45,7 @@ package tests
 //        background jobs make the number and position of operations inside store directories vary a little
 //        from run to run, so every record is self-contained)
 //   probe: open=<ok|err|panic>:<index>:<msg> look=<k:v,...> ptrace=<normalised mutating FS operations of the probe's Open>
+//       look=#<n>: the same answer as the n-th (0-based) distinct answer of >= 1000 bytes in this output file
 
 import (
 	"bufio"
@@ -50,6 +53,7 @@ import (
 	"encoding/binary"
 	"fmt"
 	"io"
+	stdlog "log"
 	"os"
 	"sort"
 	"strconv"
@@ -73,6 +77,33 @@ type vcFS struct {
 	crashed bool     // syncs are being ignored
 	crashIx int      // number of operations that took effect before the crash (-1: no crash yet)
 	ops     []string // raw operations (un-normalised paths), all of them
+	// The process of a phase ends when the file system falls back to its synced state.  A store instance the
+	// code under test leaked (a call that panicked half way) may still have background jobs running; they
+	// must not touch the file system of the next process (lni/vfs panics on a write through a handle whose
+	// file was cut back).  gate: held shared by every operation, exclusively by the reset, which sets dead.
+	gate sync.RWMutex
+	dead bool
+}
+
+var errVcDead = fmt.Errorf("verif: the process that owned this file system handle has crashed")
+
+func (c *vcFS) enter() bool {
+	c.gate.RLock()
+	if c.dead {
+		c.gate.RUnlock()
+		return false
+	}
+	return true
+}
+
+func (c *vcFS) leave() { c.gate.RUnlock() }
+
+// crash: everything that was not synced is lost, the handles of this process are dead from now on
+func (c *vcFS) reset() {
+	c.gate.Lock()
+	c.dead = true
+	c.mem.ResetToSyncedState()
+	c.gate.Unlock()
 }
 
 func (c *vcFS) op(kind string, p string, p2 string) {
@@ -101,16 +132,44 @@ type vcFile struct {
 }
 
 func (f *vcFile) Write(p []byte) (int, error) {
+	if !f.fs.enter() {
+		return 0, errVcDead
+	}
+	defer f.fs.leave()
 	f.fs.op("write", f.path, "")
 	return f.File.Write(p)
 }
 
 func (f *vcFile) WriteAt(p []byte, off int64) (int, error) {
+	if !f.fs.enter() {
+		return 0, errVcDead
+	}
+	defer f.fs.leave()
 	f.fs.op("write", f.path, "")
 	return f.File.WriteAt(p, off)
 }
 
+func (f *vcFile) Read(p []byte) (int, error) {
+	if !f.fs.enter() {
+		return 0, errVcDead
+	}
+	defer f.fs.leave()
+	return f.File.Read(p)
+}
+
+func (f *vcFile) ReadAt(p []byte, off int64) (int, error) {
+	if !f.fs.enter() {
+		return 0, errVcDead
+	}
+	defer f.fs.leave()
+	return f.File.ReadAt(p, off)
+}
+
 func (f *vcFile) Sync() error {
+	if !f.fs.enter() {
+		return errVcDead
+	}
+	defer f.fs.leave()
 	if f.isDir {
 		f.fs.op("syncdir", f.path, "")
 	} else {
@@ -127,53 +186,93 @@ func (c *vcFS) wrap(f vfs.File, err error, p string, dir bool) (vfs.File, error)
 }
 
 func (c *vcFS) Create(name string) (vfs.File, error) {
+	if !c.enter() {
+		return nil, errVcDead
+	}
+	defer c.leave()
 	c.op("create", name, "")
 	f, err := c.FS.Create(name)
 	return c.wrap(f, err, name, false)
 }
 
 func (c *vcFS) Link(o, n string) error {
+	if !c.enter() {
+		return errVcDead
+	}
+	defer c.leave()
 	c.op("link", o, n)
 	return c.FS.Link(o, n)
 }
 
 func (c *vcFS) Open(name string, opts ...vfs.OpenOption) (vfs.File, error) {
+	if !c.enter() {
+		return nil, errVcDead
+	}
+	defer c.leave()
 	f, err := c.FS.Open(name, opts...)
 	return c.wrap(f, err, name, false)
 }
 
 func (c *vcFS) OpenDir(name string) (vfs.File, error) {
+	if !c.enter() {
+		return nil, errVcDead
+	}
+	defer c.leave()
 	f, err := c.FS.OpenDir(name)
 	return c.wrap(f, err, name, true)
 }
 
 func (c *vcFS) OpenForAppend(name string) (vfs.File, error) {
+	if !c.enter() {
+		return nil, errVcDead
+	}
+	defer c.leave()
 	f, err := c.FS.OpenForAppend(name)
 	return c.wrap(f, err, name, false)
 }
 
 func (c *vcFS) Remove(name string) error {
+	if !c.enter() {
+		return errVcDead
+	}
+	defer c.leave()
 	c.op("remove", name, "")
 	return c.FS.Remove(name)
 }
 
 func (c *vcFS) RemoveAll(name string) error {
+	if !c.enter() {
+		return errVcDead
+	}
+	defer c.leave()
 	c.op("rmall", name, "")
 	return c.FS.RemoveAll(name)
 }
 
 func (c *vcFS) Rename(o, n string) error {
+	if !c.enter() {
+		return errVcDead
+	}
+	defer c.leave()
 	c.op("rename", o, n)
 	return c.FS.Rename(o, n)
 }
 
 func (c *vcFS) ReuseForWrite(o, n string) (vfs.File, error) {
+	if !c.enter() {
+		return nil, errVcDead
+	}
+	defer c.leave()
 	c.op("reuse", o, n)
 	f, err := c.FS.ReuseForWrite(o, n)
 	return c.wrap(f, err, n, false)
 }
 
 func (c *vcFS) MkdirAll(dir string, perm os.FileMode) error {
+	if !c.enter() {
+		return errVcDead
+	}
+	defer c.leave()
 	if fi, err := c.FS.Stat(dir); err == nil && fi.IsDir() {
 		c.op("mkdirx", dir, "") // directory exists already: no effect
 	} else {
@@ -183,6 +282,10 @@ func (c *vcFS) MkdirAll(dir string, perm os.FileMode) error {
 }
 
 func (c *vcFS) Lock(name string) (io.Closer, error) {
+	if !c.enter() {
+		return nil, errVcDead
+	}
+	defer c.leave()
 	c.op("lock", name, "")
 	return c.FS.Lock(name)
 }
@@ -573,7 +676,7 @@ func vcRunPhase(mem *vfs.MemFS, z *vcNorm, calls []vcCall, crashAt int, log []vc
 	tr := z.trace(fs.ops[:nops])
 	fs.mu.Unlock()
 	if crashed {
-		mem.ResetToSyncedState()
+		fs.reset()
 		mem.SetIgnoreSyncs(false)
 	}
 	return res, n, tr, crashIx
@@ -656,8 +759,19 @@ func vcProbe(mem *vfs.MemFS, z *vcNorm, keys []string) string {
 			d.Close()
 		}()
 	}
-	return fmt.Sprintf("open=%s:%d:%s look=%s ptrace=%s", status, idx, msg, strings.Join(look, ","), z.trace(openOps))
+	lookStr := strings.Join(look, ",")
+	if len(lookStr) >= 1000 { // many keys: an answer this process printed before is referred to by its number
+		if id, ok := vcLookIDs[lookStr]; ok {
+			lookStr = "#" + strconv.Itoa(id)
+		} else {
+			vcLookIDs[lookStr] = len(vcLookIDs)
+		}
+	}
+	return fmt.Sprintf("open=%s:%d:%s look=%s ptrace=%s", status, idx, msg, lookStr, z.trace(openOps))
 }
+
+// distinct lookup answers of at least 1000 bytes printed so far, numbered in the order of their first appearance
+var vcLookIDs = map[string]int{}
 
 func vcKeys(log []vcLogEnt) []string {
 	m := map[string]bool{}
@@ -725,11 +839,29 @@ func vcCallBounds(line string) []int {
 	return out
 }
 
+// the store logs through the standard logger; a leaked store instance whose process "crashed" retries its
+// background jobs in a tight loop and logs every failure: keep the first 4 MB
+type vcCapWriter struct {
+	mu   sync.Mutex
+	left int
+}
+
+func (c *vcCapWriter) Write(p []byte) (int, error) {
+	c.mu.Lock()
+	defer c.mu.Unlock()
+	if c.left > 0 {
+		c.left -= len(p)
+		os.Stderr.Write(p)
+	}
+	return len(p), nil
+}
+
 func TestVerifCrash(t *testing.T) {
 	in, out := os.Getenv("VERIF_IN"), os.Getenv("VERIF_OUT")
 	if in == "" || out == "" {
 		t.Skip("VERIF_IN / VERIF_OUT not set")
 	}
+	stdlog.SetOutput(&vcCapWriter{left: 4 << 20})
 	if err := os.Chdir("/"); err != nil { // node directory = /test_pebble_db_safe_to_delete/1_1 on the MemFS
 		t.Fatal(err)
 	}
@@ -761,6 +893,17 @@ func TestVerifCrash(t *testing.T) {
 		case mode == "S":
 			n1, _ := vcCase(w, wid, log, f[2], ph1, ph2, vcBig, -1, false)
 			for k := 0; k < n1; k++ {
+				vcCase(w, wid, log, f[2], ph1, ph2, k, -1, false)
+			}
+		case mode == "F": // every single crash point from the last operation of the first call on
+			var full bytes.Buffer
+			n1, _ := vcCase(&full, wid, log, f[2], ph1, ph2, vcBig, -1, false)
+			w.Write(full.Bytes())
+			k0 := 0
+			if b := vcCallBounds(full.String()); len(b) >= 4 && b[2] > 0 {
+				k0 = b[2]
+			}
+			for k := k0; k < n1; k++ {
 				vcCase(w, wid, log, f[2], ph1, ph2, k, -1, false)
 			}
 		case strings.HasPrefix(mode, "T"):
